@@ -11,7 +11,7 @@ def plan(tier):
     p.slice = RESP_SLICE
     p.injections = INJ
     gen = []
-    maxl = 3 if tier == "quick" else 5
+    maxl = 4 if tier == "quick" else 5
     for l in range(0, maxl + 1):
         for err in (1, 0):
             fn = "c22_%s_len%d" % ("error" if err else "simple", l)
